@@ -181,8 +181,12 @@ func (t1 *Tasks) Merge(t2 *Tasks, include *Include, includedTaskfileVars *Vars) 
 		// The task keeps the variables of its own Taskfile: the global
 		// variables of all Taskfiles end up in one set, where a sibling
 		// include may redefine them
-		task.IncludedTaskfileVars = NewVars()
-		task.IncludedTaskfileVars.Merge(includedTaskfileVars, include)
+		// (a task that was itself included by the included Taskfile already
+		// carries the variables of its own Taskfile)
+		if task.IncludedTaskfileVars == nil {
+			task.IncludedTaskfileVars = NewVars()
+			task.IncludedTaskfileVars.Merge(includedTaskfileVars, include)
+		}
 
 		if _, ok := t1.Get(taskName); ok {
 			return &errors.TaskNameFlattenConflictError{
